@@ -12,7 +12,10 @@ from vlib.runner import hyp
 
 PROPERTY = 'C20'
 LEVEL = 'exploration'
-RULE = ('Histories: player-list packets over a pool of 4 UUIDs (all five '
+RULE = ('Record fields also hold lists and dicts, and twins that are '
+        'equal but print differently (1 / 1.0 / True, reordered dicts): '
+        'equal records hash equally or are both unhashable. '
+'Histories: player-list packets over a pool of 4 UUIDs (all five '
         'actions, 1-3 actions per packet, up to 200 packets) applied to a '
         'real PlayerList vs a dict model compared after every packet; map '
         'packets over 3 map ids (icons, optional pixel patch of any size '
